@@ -176,6 +176,13 @@ theorem parse_snapshotName (isPartial : Bool) (start stop : Nat)
     rw [if_neg (by omega)]
     simp
 
+theorem snapshotName_split (isPartial : Bool) (start stop : Nat) :
+    ∃ r, snapshotName isPartial start stop = pad10 stop ++ r := by
+  unfold snapshotName fullName partialName
+  cases isPartial
+  · exact ⟨_, by simp only [Bool.false_eq_true, if_false, List.append_assoc]; rfl⟩
+  · exact ⟨_, by simp only [if_true, List.append_assoc]; rfl⟩
+
 /-! ### lexicographic order of equal-length digit strings = numeric order -/
 
 theorem char_lt_iff (a b : Char) : a < b ↔ a.toNat < b.toNat := by
